@@ -210,6 +210,11 @@ type Adj struct {
 	Edges []string `json:"edges"`
 }
 
+type NoIssuer struct {
+	Node  []string `json:"node"`
+	Edges []string `json:"edges"`
+}
+
 type Missing struct {
 	Name  string   `json:"name"`
 	Edges []string `json:"edges"`
@@ -225,6 +230,7 @@ type Obs struct {
 	Parents  []Adj      `json:"parents"`
 	Children []Adj      `json:"children"`
 	Missing  []Missing  `json:"missing"`
+	NoIssuer []NoIssuer `json:"noissuer"`
 	FindNode []bool     `json:"findnode"`
 	Panic    string     `json:"panic"`
 }
@@ -252,7 +258,7 @@ func (p *Pool) edgeIDs(es []*verifier.GraphEdge) []string {
 // Observe projects the real graph.  added / roots describe the input history (what was inserted).
 func (p *Pool) Observe(g *verifier.Graph, added []AbsCert, roots []string) Obs {
 	o := Obs{Certs: append([]AbsCert{}, added...), Roots: append([]string{}, roots...), Nodes: [][]string{},
-		NodeIdx: [][]string{}, Edges: []Edge{}, Parents: []Adj{}, Children: []Adj{}, Missing: []Missing{}, FindNode: []bool{}}
+		NodeIdx: [][]string{}, Edges: []Edge{}, Parents: []Adj{}, Children: []Adj{}, Missing: []Missing{}, NoIssuer: []NoIssuer{}, FindNode: []bool{}}
 	sort.Slice(o.Certs, func(i, j int) bool { return o.Certs[i].ID < o.Certs[j].ID })
 	sort.Strings(o.Roots)
 	fpNode := map[string]*verifier.GraphNode{}
@@ -310,7 +316,11 @@ func (p *Pool) Observe(g *verifier.Graph, added []AbsCert, roots []string) Obs {
 	for _, n := range g.Nodes() {
 		o.Parents = append(o.Parents, adj(n, verifier.VerifGraphNodeParents(n))...)
 		o.Children = append(o.Children, adj(n, verifier.VerifGraphNodeChildren(n))...)
+		if es := verifier.VerifGraphNodeParentsWithoutIssuer(n); len(es) > 0 {
+			o.NoIssuer = append(o.NoIssuer, NoIssuer{Node: p.NodeAbs(n), Edges: p.edgeIDs(es)})
+		}
 	}
+	sort.SliceStable(o.NoIssuer, func(i, j int) bool { return nodeLess(o.NoIssuer[i].Node, o.NoIssuer[j].Node) })
 	adjLess := func(s []Adj) func(i, j int) bool {
 		return func(i, j int) bool {
 			if !(s[i].Node[0] == s[j].Node[0] && s[i].Node[1] == s[j].Node[1]) {
